@@ -12,7 +12,9 @@
 (*             c   (the abstract command the rig's interpreter read out of *)
 (*                  the returned string and the files it references),      *)
 (*             sig / fresh (digest of command string + file contents on    *)
-(*             this instance / on a fresh instance of the configuration).  *)
+(*             this instance / on a fresh instance of the configuration),  *)
+(*             cfgsame (the config objects the launcher was given, lm_cfg  *)
+(*             and rm_info, are deep-equal before and after the calls).    *)
 (* Find event: cfgs / cans (configuration and can_launch of each method of *)
 (*             the order the resource manager kept), sel (index of the     *)
 (*             method find_launcher returned, 0: none), the task.          *)
@@ -55,6 +57,8 @@ GenErrs(e) ==
   IN
      E(CannotStart(c, P, e.task.mpi, Local) => (~e.can \/ e.out = "raise"), At("C09.RefuseNotShrink"))
   \cup E(e.out = "cmd" => e.can, At("X.ProtocolBroken"))
+  \* lm_cfg / rm_info deep-equal before and after can_launch + get_launch_cmds
+  \cup E(e.cfgsame, At("C09.ConfigUntouched"))
   \* same outcome as on a fresh instance, and as earlier on this instance
   \cup E(e.sig = e.fresh, At("C09.HistoryFree"))
   \cup E(e.task.id \in ids => <<e.task.id, e.sig>> \in seen, At("C09.HistoryFree"))
@@ -78,6 +82,7 @@ Step ==
                /\ LET P == ToP(e.task.p) IN
                   errs' = errs
                     \cup E(OrderOK(e.cans, e.sel) /\ e.kept, At("C09.OrderRespected"))
+                    \cup E(e.cfgsame, At("C09.ConfigUntouched"))
                     \cup E(SelAble(e.cfgs, e.sel, P, e.task.mpi, Local), At("C09.OrderRespected"))
                     \cup E(\A i \in DOMAIN e.cfgs :
                              CannotStart(e.cfgs[i], P, e.task.mpi, Local) => ~e.cans[i],
